@@ -16,7 +16,9 @@ Definition is_lock_token (t : string) : bool :=
 
 Definition is_shared_token (t : string) : bool :=
   existsb (String.eqb t)
-    ["read:packages"; "write:packages"; "read:Schemas"; "write:Schemas"; "read:Packages"; "write:Packages"; "read:To"; "write:To"].
+    ["read:packages"; "write:packages"; "read:Schemas"; "write:Schemas"; "read:Packages"; "write:Packages"; "read:To"; "write:To";
+     "delete:packages"; "delete:Schemas"; "delete:Packages"]
+  || String.prefix "setfield:" t.
 
 Fixpoint find_fn (tab : fn_table) (name : string) : option (bool * list string) :=
   match tab with
@@ -77,12 +79,15 @@ Definition code_disc : disc := if code_guarded then Guarded else Unguarded.
 
 (* ---- the access sequences the step function of Conc.v mirrors ------------- *)
 Definition expected_cache_methods : fn_table := [
-  ("Schema", true, ["hook:schema.enter"; "lock"; "defer-unlock"; "call:schemaLocked"]);
-  ("refTo", false, ["call:referencePackage"; "hook:refto.lookup"; "read:Schemas"; "hook:refto.insert"; "write:Schemas"]);
+  (* take the lock; registered = registered[:0]; build; on error delete the registered refs; registered = nil *)
+  ("Schema", true, ["hook:schema.enter"; "lock"; "defer-unlock"; "setfield:registered"; "call:schemaLocked";
+                    "delete:Schemas"; "setfield:registered"]);
+  ("refTo", false, ["call:referencePackage"; "hook:refto.lookup"; "read:Schemas"; "hook:refto.insert"; "write:Schemas";
+                    "setfield:registered"]);
   ("referencePackage", false, ["read:packages"; "write:packages"]);
   ("schemaLocked", false, ["call:referencePackage"; "hook:cache.lookup"; "read:Schemas"; "read:To"; "read:To";
-                           "hook:cache.insert"; "write:Schemas"; "write:To"; "write:To"; "hook:cache.linked";
-                           "read:To"; "read:To"; "read:To"])
+                           "hook:cache.insert"; "write:Schemas"; "setfield:registered"; "write:To"; "write:To";
+                           "hook:cache.linked"; "read:To"; "read:To"; "read:To"])
 ].
 
 (* the placeholder sites of the on-demand builder (SchemaSetFromFiles builds a private SchemaSet) *)
